@@ -1,4 +1,5 @@
 import warnings
+from io import StringIO
 from collections import Counter
 from itertools import chain
 
@@ -327,18 +328,26 @@ class PkgConfigWriter:
     def __init__(self, context):
         self.context = context
 
+    @staticmethod
+    def _write_value(out, value, syntax, **kwargs):
+        # pkg-config treats an unescaped '#' as the start of a comment, even
+        # inside quotes.
+        value_out = Writer(StringIO(), out.localize_paths)
+        value_out.write_each(iterate(value), syntax, **kwargs)
+        out.write_literal(value_out.stream.getvalue().replace('#', '\\#'))
+
     def _write_variable(self, out, name, value, syntax=Syntax.variable,
                         **kwargs):
         out.write(name, Syntax.variable)
         out.write_literal('=')
-        out.write_each(iterate(value), syntax, **kwargs)
+        self._write_value(out, value, syntax, **kwargs)
         out.write_literal('\n')
 
     def _write_field(self, out, name, value, syntax=Syntax.variable, **kwargs):
         if value:
             out.write(name, Syntax.variable)
             out.write_literal(': ')
-            out.write_each(iterate(value), syntax, **kwargs)
+            self._write_value(out, value, syntax, **kwargs)
             out.write_literal('\n')
 
     def _output_path(self, data, installed=True):
